@@ -769,6 +769,16 @@ class Variant(productmd.composeinfo.VariantBase):
                 addon.type = "addon"
                 self.add(addon)
 
+    def _child_uids(self, parser, section):
+        # the file format lists children under "addons" and "variants"; this library writes all of them under "addons"
+        result = []
+        for option in ("addons", "variants"):
+            if parser.has_option(section, option):
+                for i in parser.get(section, option).split(","):
+                    if i and i not in result:
+                        result.append(i)
+        return result
+
     def deserialize_0_3(self, parser, uid, addon=False):
         section = "variant-%s" % uid
         if not parser.has_section(section):
@@ -779,17 +789,10 @@ class Variant(productmd.composeinfo.VariantBase):
         self.type = parser.get(section, "type")
 
         # child addons
-        addons = ""
-        if parser.has_option(section, "addons"):
-            addons = parser.get(section, "addons")
-        elif parser.has_option(section, "variants"):
-            addons = parser.get(section, "variants")
-        if addons:
-            variant_uids = [i for i in addons.split(",") if i]
-            for variant_uid in variant_uids:
-                variant = Variant(self._metadata)
-                variant.deserialize(parser, variant_uid, addon=True)
-                self.add(variant)
+        for variant_uid in self._child_uids(parser, section):
+            variant = Variant(self._metadata)
+            variant.deserialize(parser, variant_uid, addon=True)
+            self.add(variant)
 
     def deserialize_1_0(self, parser, uid, addon=False):
         # the section name depends on uid and type; keep reading the section we started with
@@ -805,12 +808,10 @@ class Variant(productmd.composeinfo.VariantBase):
             raise ValueError("Section '%s' describes a variant of type '%s'" % (section, self.type))
 
         # child addons
-        if parser.has_option(section, "addons"):
-            variant_uids = [i for i in parser.get(section, "addons").split(",") if i]
-            for variant_uid in variant_uids:
-                variant = Variant(self._metadata)
-                variant.deserialize(parser, variant_uid, addon=True)
-                self.add(variant)
+        for variant_uid in self._child_uids(parser, section):
+            variant = Variant(self._metadata)
+            variant.deserialize(parser, variant_uid, addon=True)
+            self.add(variant)
 
     def serialize(self, parser):
         self.validate()
